@@ -13,11 +13,12 @@
 // 2 (kDefaultCapacity 2 and 4) = 24, partitioned over up to 8 threads (each configuration is an
 // independent exhaustive sub-domain; results are merged in configuration order).
 //
-// NOTE on SizeTraits: ConcurrentVector<T, Traits, SizeTraits> does not compile for any SizeTraits
-// other than the default (its iterator types name ConcurrentVector<T, Traits>, i.e. the class with
-// the *default* SizeTraits, so `iterator{this, ...}` has no viable constructor).  The tiny
+// NOTE on SizeTraits: before /repo commit f908872 ConcurrentVector<T, Traits, SizeTraits> did not compile
+// for any non-default SizeTraits (its iterator types named ConcurrentVector<T, Traits>).  The tiny
 // capacities are therefore injected by specialising DefaultConcurrentVectorSizeTraits<Elem<Cap>>,
-// where Elem<Cap> is a thin tag subclass of seq::Tracked<int> (one element type per capacity).
+// where Elem<Cap> is a thin tag subclass of seq::Tracked<int> (one element type per capacity); that
+// still works after the repair and is kept.  A compile-and-run smoke test of a real custom SizeTraits
+// (and of max_size()) sits in main(); define C32_NO_SIZETRAITS_SMOKE to build against older headers.
 #include <dispenso/concurrent_vector.h>
 
 #include <atomic>
@@ -56,6 +57,11 @@ struct DefaultConcurrentVectorSizeTraits<Elem<4>> {
   static constexpr size_t kMaxVectorSize = size_t{1} << 12;
 };
 } // namespace dispenso
+
+struct SmokeSizeTraits {
+  static constexpr size_t kDefaultCapacity = 2;
+  static constexpr size_t kMaxVectorSize = size_t{1} << 10;
+};
 
 template <bool Inline, bool Fast, dispenso::ConcurrentVectorReallocStrategy S>
 struct Tr {
@@ -216,7 +222,8 @@ static void write_emergency(const char* what, Slot* s) {
 }
 static void death_callback() {
   static std::atomic<int> once{0};
-  if (once.exchange(1)) return;
+  if (once.exchange(1)) // another thread died first: let it finish its report (it ends the process)
+    for (;;) pause();
   write_emergency("sanitizer abort (memory error or undefined behaviour)", t_slot);
 }
 
@@ -492,15 +499,6 @@ struct Runner {
       }
       case GTAL:
       case GTAL_VAL: {
-        if (n == 0 && Fast) {
-          // grow_to_at_least(0) builds an iterator for index size_t(-1): with the pointer-caching
-          // iterator that reads buffers_[bucket(size_t(-1))].  Decide without executing the read.
-          auto bi = v.bucketAndSubIndex(size_t(0) - 1);
-          if (bi.bucket >= CV::kMaxBuffers)
-            return mk(
-                "grow_to_at_least(0) indexes the bucket-pointer array out of bounds (not executed)",
-                seq::fmt("bucket %zu >= kMaxBuffers %zu", bi.bucket, (size_t)CV::kMaxBuffers));
-        }
         E x(f);
         auto it = op.k == GTAL ? v.grow_to_at_least(n) : v.grow_to_at_least(n, x);
         if (old < n) {
@@ -510,7 +508,10 @@ struct Runner {
             mv.resize(n, x);
           return chk_ret(v, mv, it, old, "grow_to_at_least (growing)");
         }
-        if (n == 0) return {}; // "iterator to the nth element" is meaningless for n==0
+        // n == 0: there is no element n-1; the repaired header returns begin().  (The original code built an
+        // iterator for index size_t(-1), reading buffers_[64 - firstBucketShift_] out of bounds: with that header
+        // this call ends in the sanitizer death callback or in a wrong returned index.)
+        if (n == 0) return chk_ret(v, mv, it, 0, "grow_to_at_least(0)");
         return chk_ret(v, mv, it, n - 1, "grow_to_at_least (not growing)");
       }
       case RESIZE: {
@@ -1246,6 +1247,18 @@ int main(int argc, char** argv) {
   }
   reg_cap<2>();
   reg_cap<4>();
+#ifndef C32_NO_SIZETRAITS_SMOKE
+  {
+    dispenso::ConcurrentVector<int, dispenso::DefaultConcurrentVectorTraits, SmokeSizeTraits> sv;
+    for (int i = 0; i < 9; i++) sv.push_back(i);
+    int sum = 0;
+    for (int x : sv) sum += x;
+    if (sum != 36 || sv.size() != 9 || sv.max_size() != SmokeSizeTraits::kMaxVectorSize || sv.default_capacity() != 2) {
+      fprintf(stderr, "custom SizeTraits smoke test failed\n");
+      return 2;
+    }
+  }
+#endif
   __sanitizer_set_death_callback(death_callback);
 
   // Argument sets.  A default-constructed vector has first bucket length F = kDefaultCapacity/2 and buckets
